@@ -721,7 +721,7 @@ Definition roundtrippable (fs : str) : bool :=
   let letters := map fst toks in
   forallb (fun l => existsb (Z.eqb l) letters) [89; 109; 100; 72; 77; 83; 102] &&      (* Y m d H M S f present *)
   forallb (fun l => (count_occ Z.eq_dec letters l <=? 1)%nat) [89; 109; 100; 72; 77; 83; 102; 106; 65; 97; 66; 98; 84] &&
-  forallb (fun l => existsb (Z.eqb l) [89; 109; 100; 72; 77; 83; 102]) letters &&      (* only those seven: names, %j, %T, %z interplay is not claimed *)
+  forallb (fun l => existsb (Z.eqb l) [89; 109; 100; 72; 77; 83; 102; 106; 65; 97; 66; 98]) letters &&      (* those seven, plus the redundant %j and the weekday / month names; %T and %z interplay is not claimed *)
   forallb sep_is_safe (filter (fun c => negb (c =? 37)) (flat_map (fun c => [c]) (let fix strip (r : str) : str := match r with 37 :: _ :: r' => strip r' | c :: r' => c :: strip r' | [] => [] end in strip fs))) &&
   forallb (fun t => (1 <=? snd t)%nat) (removelast toks) &&
   match fs with 37 :: _ => true | _ => false end.
